@@ -66,7 +66,7 @@ impl Stats {
     /// counted for ops the reader actually consumed: see `observe`.
     pub fn observe(&mut self, case: &Case, h: &History) {
         self.executions += 1;
-        self.sim_us_total += h.end_t_us - crate::exec::T0_US;
+        self.sim_us_total = self.sim_us_total.saturating_add(h.end_t_us.saturating_sub(crate::exec::T0_US));
         self.events_total += h.seam.len() as u64;
         let oc = match &h.outcome {
             crate::exec::Outcome::Panic(_) => "panic".to_string(),
@@ -156,7 +156,7 @@ impl Stats {
         self.executions += o.executions;
         self.nontrivial_runs += o.nontrivial_runs;
         self.discarded_by_crash += o.discarded_by_crash;
-        self.sim_us_total += o.sim_us_total;
+        self.sim_us_total = self.sim_us_total.saturating_add(o.sim_us_total);
         self.events_total += o.events_total;
         self.lines_total += o.lines_total;
         self.oracle_evals += o.oracle_evals;
